@@ -12,6 +12,7 @@ import (
 	"math"
 	"runtime"
 	"sort"
+	"sync"
 	"time"
 
 	"github.com/thanos-community/promql-engine/api"
@@ -277,7 +278,9 @@ type compatibilityQuery struct {
 	ts     time.Time // Empty for range queries.
 	t      QueryType
 
-	cancel context.CancelFunc
+	// Cancel and Close may be called from other goroutines than Exec.
+	cancelMu sync.Mutex
+	cancel   context.CancelFunc
 }
 
 func (q *compatibilityQuery) Exec(ctx context.Context) (ret *promql.Result) {
@@ -290,7 +293,9 @@ func (q *compatibilityQuery) Exec(ctx context.Context) (ret *promql.Result) {
 
 	ctx, cancel := context.WithCancel(ctx)
 	defer cancel()
+	q.cancelMu.Lock()
 	q.cancel = cancel
+	q.cancelMu.Unlock()
 
 	resultSeries, err := q.Query.exec.Series(ctx)
 	if err != nil {
@@ -446,9 +451,12 @@ func (q *compatibilityQuery) Close() { q.Cancel() }
 func (q *compatibilityQuery) String() string { return q.expr.String() }
 
 func (q *compatibilityQuery) Cancel() {
-	if q.cancel != nil {
-		q.cancel()
-		q.cancel = nil
+	q.cancelMu.Lock()
+	cancel := q.cancel
+	q.cancel = nil
+	q.cancelMu.Unlock()
+	if cancel != nil {
+		cancel()
 	}
 }
 
